@@ -1,4 +1,5 @@
 """C07 quantile sketches: weights, extremes, coherent answers (DESIGN.md section 5 C07): structural clauses."""
+import validators
 import quantile_rules as Q
 import cowrite
 import generic_lints
@@ -27,6 +28,7 @@ def run(facts, tier):
         ("invalidated pointers", lambda fa: generic_lints.invalidated_pointers(fa, ('kll/', 'req/', 'quantiles/')), 1, "no pointer / iterator obtained from begin() / end() / data() of an object is used after a call on that object that can move its storage (ensure_space, grow, resize ...)"),
         ("moves from lvalue operands", lambda fa: generic_lints.moves_from_lvalue_operands(fa, ['kll', 'req', 'quantiles']), 1, "in the lvalue instantiation of a forwarding-reference operand nothing is std::move-d out of the operand (conditional_forward copies there): a sketch passed to be read keeps its items / summaries"),
         ("narrow shifts", lambda fa: generic_lints.narrow_variable_shift(fa, ('kll/', 'req/', 'quantiles/')), 1, "no count << level evaluated in 32 bits and only then widened to 64 bits (weights of large merged sketches wrap at 2^32)"),
+        ("argument checkers", lambda fa: validators.checker_obligations(fa, ["kll", "req", "quantiles"]), 8, "the argument / image checkers of the quantile families reject exactly the reviewed ranges (spec/checkers.json)"),
         ("req merge runs", coin_rules.req_merge_ranges, 2, "REQ compactor merge hands std::inplace_merge exactly the old run and the appended run in both buffer layouts (exact pointer arithmetic with hra_ fixed)"),
         ("unsigned clamp", coin_rules.unsigned_field_minus_param, 1, "the REQ compaction schedule is clamped to the number of sections (unsigned difference cannot wrap)"),
         ("req region", coin_rules.req_region, 2, "REQ compaction range touches the end of the live region that compact() moves, so shrinking num_items_ removes exactly the compacted items"),
